@@ -1,6 +1,7 @@
 /- Line-protocol verbs of C01 that are not already `REQ` verbs (`Driver/Req.lean`): the request pipeline
    behind one client connection's byte stream (`Model/C01.lean` §2). -/
 import FwdVerif.Model.C01
+import FwdVerif.Model.C01Scheme
 import FwdVerif.Driver.Req
 import FwdVerif.Driver.ReqConn
 
@@ -31,6 +32,17 @@ def handle : List String → String
       let r := serveConn m cfg ctx (fun h => oc.contains h.target) inp
       " | ".intercalate (ReqConn.encodeEnd r.2 :: r.1.map (encodeActed cfg ctx))
     | _, _, _, _, _ => "bad-op"
+  | "scheme" :: t =>
+    -- `scheme <connection and request tokens of REQ process>`: scheme and authority the request leaves the
+    -- proxy with and how the transport treats that scheme: `<scheme> <authority> clear|tls|unsupported <origin address>`
+    match decodeCtx t, decodeReq t with
+    | some ctx, some r =>
+      match reach ctx r with
+      | some x =>
+        let c := match x.contact with | .clear => "clear" | .tls => "tls" | .unsupported => "unsupported"
+        s!"{hexOfBytes x.scheme} {hexOfBytes x.authority} {c} {hexOfBytes x.addr}"
+      | none => "unreadable"
+    | _, _ => "bad-op"
   | _ => "bad-op"
 
 end C01
